@@ -979,8 +979,12 @@ func (f *folder) evalInstr(env map[ssa.Value]fval, mem map[*ssa.Alloc]fval, in s
 			}
 			return
 		}
-		// a sub-slice of an immutable list with constant bounds
-		if l, ok := f.val(env, x.X).cv.(*ListV); ok && x.Max == nil {
+		// a sub-slice of an immutable list (or of an immutable package-level array, through its address) with constant bounds
+		lsrc, lok := f.val(env, x.X).cv.(*ListV)
+		if !lok {
+			lsrc, lok = f.val(env, x.X).cvptr.(*ListV)
+		}
+		if l, ok := lsrc, lok; ok && x.Max == nil {
 			lo, hi := int64(0), int64(len(l.Elems))
 			okB := true
 			if x.Low != nil {
@@ -1138,6 +1142,31 @@ func (f *folder) val(env map[ssa.Value]fval, v ssa.Value) fval {
 		if gv := f.c.globalTable(x); gv.known() {
 			if raw, ok := f.c.globalRaw[x]; ok && raw != nil {
 				return fval{cvptr: raw}
+			}
+			// an array filled by initialiser code: its address reads as that (immutable) list
+			if gv.fields != nil {
+				if pt, ok := x.Type().Underlying().(*types.Pointer); ok {
+					if at, ok := pt.Elem().Underlying().(*types.Array); ok {
+						lv := &ListV{T: pt.Elem()}
+						okAll := true
+						for i := int64(0); okAll && i < at.Len(); i++ {
+							e, has := gv.fields[fmt.Sprintf("#%d", i)]
+							if !has {
+								okAll = false
+								break
+							}
+							ev, ok := toVal(e, at.Elem(), f.c)
+							if !ok {
+								okAll = false
+								break
+							}
+							lv.Elems = append(lv.Elems, ev)
+						}
+						if okAll {
+							return fval{cvptr: lv}
+						}
+					}
+				}
 			}
 			// a struct value made by an initialiser call: its address reads as that (immutable) value
 			if gv.fields != nil {
